@@ -150,12 +150,12 @@ def op_partition(w, ev, slot):
         mkarg(rec), axis=AXNAME[ax], remove_empty=rme, ignore_none=ign)))
     if status == 'fault':
         w.stats['fault.F1.fired'] += 1
-        w.expect_unchanged(slot, 'newtable.input_changed',
+        w.expect_unchanged(slot, 'partition.parts.input_changed',
                            'partition aborted by callback')
         return 'partition:fault'
     if status == 'exc':
         w.fail('partition.parts.raised', 'partition raised %r' % res)
-    w.expect_unchanged(slot, 'newtable.input_changed', 'partition')
+    w.expect_unchanged(slot, 'partition.parts.input_changed', 'partition')
     kept = []
     for item in res:
         label, tab, exp = _check_part(w, item, parts, 'partition.parts')
